@@ -17,6 +17,10 @@ def run(tier, seed):
     k = kq if tier == "quick" else kt
     r, rep = netcommon.mc_and_replay(v, wd, u, k, tier == "thorough", workers=12 if tier == "quick" else 15)
     vlib.require(rep["nontrivial"] > 20, "replay too small")
+    # removeparam rules on a live blocker: added one at a time, explicit Blocker::optimize (that list is never optimised)
+    from checks import enginecommon
+    _, reph, _ = enginecommon.histories(v, wd, "blocker", 3 if tier == "quick" else 4)
+    vlib.require(reph["nontrivial"] > 30, "history replay too small")
     v.assumptions += ["resources carry their own name as content so that the served data-URL identifies the chosen resource",
                       "third-party computed in the spec with single-label public suffixes"]
     return v.finish("model_checking", rule % k, exhaustive=True)
